@@ -111,7 +111,7 @@ def selftest(ck):
     fdir = os.path.join(frontend.VERIF, "fixtures")
     prog = Program(frontend.load_sources([os.path.join(fdir, "c04.c"), os.path.join(fdir, "c03.c")][1:]))
     out = {}
-    want = {"fx3_good_s": 0, "fx3_trunc_s": 1, "fx3_cat_s": 0, "fx3_untouched_s": 1, "fx3_index_helper_s": 0, "fx3_wfmt_fail_open_s": 1, "fx3_wfmt_fail_reset_s": 0}
+    want = {"fx3_good_s": 0, "fx3_trunc_s": 1, "fx3_cat_s": 0, "fx3_untouched_s": 1, "fx3_index_helper_s": 0, "fx3_wfmt_fail_open_s": 1, "fx3_wfmt_fail_reset_s": 0, "fx3_wfmt_probe_s": 0}
     for n, w in want.items():
         r = dc.explore(prog, n)
         got = len([f for f in judge(n, r) if ":success:" in f["key"] or n != "fx3_index_helper_s"]) if "outcomes" in r else -1
